@@ -2,7 +2,7 @@
     Property theorems only. *)
 From Coq Require Import ZArith List Bool Permutation Sorted.
 Import ListNotations.
-From CV Require Import Model.M_flow Model.M_hooks Model.M_pipeline Proof.P_hooks Proof.P_cnt Proof.P_endreq Proof.P_flow_thm Proof.P_flow_gen.
+From CV Require Import Model.M_flow Model.M_hooks Model.M_pipeline Model.M_aflow Proof.P_hooks Proof.P_cnt Proof.P_endreq Proof.P_flow_thm Proof.P_flow_gen.
 Open Scope Z_scope.
 
 (** The hooks of a point run in ascending priority order with ties in attachment order:
@@ -84,18 +84,26 @@ Theorem c09_end_request_exactly_once_if_closed : forall E fuel o st' r,
 Proof. exact (gthm_end_request_exactly_once_if_closed prog pparam sess_fuel handwritten_flow_checks). Qed.
 Print Assumptions c09_end_request_exactly_once_if_closed.
 
+(** The full clause: in every terminating server session - whatever the handler, hooks, tools, error pages, body
+    iterator, the server's start_response and the number of close() calls do - every request object that was
+    served (loaded into the serving slot: the original request and every internal-redirect successor) has had
+    its on_end_request hooks run exactly once. *)
+Theorem c09_end_request_exactly_once : forall E fuel o st' r,
+  env_ok E -> p_throw E = false ->
+  run_flow E fuel server_session init_state = (o, st') -> o <> OutOfFuel ->
+  In r (served (sid st')) -> r <> 0 ->
+  countr r (journal st') = 1%nat.
+Proof. exact (gthm_end_request_exactly_once prog pparam sess_fuel handwritten_flow_checks). Qed.
+Print Assumptions c09_end_request_exactly_once.
+
 Theorem c09_end_request_only_in_close : forall E fuel st o st',
   run_flow E fuel (Call F_request_run) st = (o, st') -> o <> OutOfFuel ->
   count (RunHooks OnEndRequest) (journal st') = count (RunHooks OnEndRequest) (journal st).
 Proof. exact thm_end_request_not_in_run. Qed.
 Print Assumptions c09_end_request_only_in_close.
 
-(* c09_end_request_exactly_once (full statement): for every request object r that was loaded into the
-   serving slot during a terminating server session, countr r (journal st') = 1.
-   Proved: "<= 1" for every execution, and "= 1 exactly for the requests whose close() ran" for every terminating
-   one (above).  Missing: that close() IS called on every served request before the slot is cleared or
-   reloaded; this needs a whole-program invariant over request identities that the abstraction of
-   Proof/P_aflow.v does not track.  It is covered by the differential fault enumeration (vcheck C09). *)
+(* (request id 0 is the class-default request object that occupies the serving slot between requests; ids handed
+   out by NewRequest start at 1, so [r <> 0] excludes nothing that was created for a client.) *)
 
 (** Non-vacuity: a concrete hook list with ties, a failing ordinary hook, failsafe hooks behind it. *)
 Example c09_nonvacuous :
